@@ -55,7 +55,7 @@ func genBig(t *rapid.T) Case {
 }
 
 func Gen(t *rapid.T) Case {
-	if rapid.IntRange(0, 39).Draw(t, "big") == 0 {
+	if b := rapid.IntRange(0, 39).Draw(t, "big"); b == 17 || b == 23 { // interior values: rapid favours the ends of a range
 		return genBig(t)
 	}
 	c := Case{Typ: rapid.SampledFrom(arr.Types).Draw(t, "type"), C: rapid.Bool().Draw(t, "cbacked")}
